@@ -423,6 +423,11 @@ func (h *History) step(t *rapid.T) {
 	if h.aborted || h.failed != nil {
 		return
 	}
+	for _, u := range h.unis {
+		if u.profile == "giant" && len(h.trace.Ops) > 14 {
+			return // histories on 64 KiB keys stay short: every audit copies the keys
+		}
+	}
 	ti := 0
 	if len(h.eng.slots) > 1 {
 		ti = drawInt(t, 0, len(h.eng.slots)-1, "tree")
